@@ -6,9 +6,12 @@
       analysis builds for a content; [enc_injective]: enc is injective (free algebra + key families);
    3. [cana]: the content of a node, computed from the program by the same recursion as [sana];
       [sana_cana]: the signature term computed by [sana] is [enc] of that content;
-   4. [sig_injective], [sig_sensitive];
-   5. [sana_faithful]: rendering [sana] with a digest function H gives [ana] of Sig.v. *)
-From Coq Require Import List Ascii String ZArith NArith Bool Lia.
+   4. [sig_injective], [sig_sensitive]; 4b. [sig_injective_known];
+   5. [sana_faithful]: rendering [sana] with a digest function H gives [ana] of Sig.v;
+   6. [sig_injective_perm]: the same modulo permutation of the entries of every combination (the XOR-fold is
+      commutative): the content is determined up to the order of the named entries; the interactions cannot be
+      permuted because their index is part of the key (uses [dec_nat_inj], proved here). *)
+From Coq Require Import List Ascii String ZArith NArith Bool Lia Permutation.
 From DDS Require Import Base.Bytes Extracted.ConstHash Extracted.ConstSig L0_Hash.PyVal L0_Hash.DdsHash L1_Args.ArgCtx
      L3_Sig.Program L3_Sig.Sig L3_Sig.SigTree.
 Import ListNotations.
@@ -277,6 +280,8 @@ Proof. intros a k [|x l] Hk; cbn [opt_entry]; [constructor|constructor; [exact H
 Lemma cons_pair_inj : forall (A B : Type) (a a2 : A) (b b2 : B) l l2,
   (a, b) :: l = (a2, b2) :: l2 -> a = a2 /\ b = b2 /\ l = l2.
 Proof. intros A B a a2 b b2 l l2 H. injection H. auto. Qed.
+Lemma cons_pair_inj_pair : forall (A B : Type) (a a2 : A) (b b2 : B), (a, b) = (a2, b2) -> a = a2 /\ b = b2.
+Proof. intros A B a a2 b b2 H. injection H. auto. Qed.
 Lemma DBytes_inj : forall a b, DBytes a = DBytes b -> a = b.
 Proof. intros a b H. injection H. auto. Qed.
 Lemma DHash_inj : forall a b, DHash a = DHash b -> a = b.
@@ -1473,3 +1478,332 @@ Section Faithful.
     end.
   Proof. intros f named key R. exact (proj1 FF_all f (named, key) R). Qed.
 End Faithful.
+
+(* ================================================================================================================ *)
+(* 6. modulo permutation: dds_hash_commut is an XOR-fold, the order of the entries of a combination is not observable*)
+(* ================================================================================================================ *)
+(* [peq t t']: t' is t with the entries of every combination permuted *)
+Inductive peq : dg -> dg -> Prop :=
+| PeqBytes : forall b, peq (DBytes b) (DBytes b)
+| PeqHash : forall b, peq (DHash b) (DHash b)
+| PeqComb : forall l l', pleq l l' -> peq (DComb l) (DComb l')
+with pleq : list (bytes * dg) -> list (bytes * dg) -> Prop :=
+| PleqNil : pleq [] []
+| PleqCons : forall k v v' l l1 l2, peq v v' -> pleq l (l1 ++ l2) -> pleq ((k, v) :: l) (l1 ++ (k, v') :: l2).
+
+Section DgInd.
+  Variable P : dg -> Prop.
+  Hypothesis HB : forall b, P (DBytes b).
+  Hypothesis HH : forall b, P (DHash b).
+  Hypothesis HC : forall l, Forall (fun kv => P (snd kv)) l -> P (DComb l).
+  Fixpoint dg_ind' (t : dg) : P t :=
+    match t with
+    | DBytes b => HB b
+    | DHash b => HH b
+    | DComb l => HC l ((fix go (l : list (bytes * dg)) : Forall (fun kv => P (snd kv)) l :=
+                          match l with
+                          | [] => Forall_nil _
+                          | kv :: r => Forall_cons kv (dg_ind' (snd kv)) (go r)
+                          end) l)
+    end.
+End DgInd.
+
+(* equal terms are related (so the theorems below also cover section 4) *)
+Lemma peq_refl : forall t, peq t t.
+Proof.
+  induction t as [b|b|l IH] using dg_ind'; [constructor|constructor|].
+  constructor. induction IH as [|[k v] l Hv _ IHl]; [constructor|].
+  exact (PleqCons k v v l [] l Hv IHl).
+Qed.
+
+Lemma pleq_length : forall l l', pleq l l' -> List.length l = List.length l'.
+Proof.
+  intros l l' Hp. induction Hp as [|k v v' l l1 l2 _ _ IH]; [reflexivity|].
+  rewrite app_length in *. cbn [List.length]. rewrite IH. lia.
+Qed.
+
+Lemma pleq_nil_l : forall l, pleq [] l -> l = [].
+Proof. intros l Hp. apply pleq_length in Hp. destruct l; [reflexivity|discriminate Hp]. Qed.
+Lemma pleq_nil_r : forall l, pleq l [] -> l = [].
+Proof. intros l Hp. apply pleq_length in Hp. destruct l; [reflexivity|discriminate Hp]. Qed.
+
+Lemma pleq_single : forall k v k2 v2, pleq [(k, v)] [(k2, v2)] -> k = k2 /\ peq v v2.
+Proof.
+  intros k v k2 v2 Hp. inversion Hp as [|k' v0 v' l l1 l2 Hv Hl Hk Heq]. subst.
+  destruct l1 as [|x l1].
+  - cbn [app] in Heq. injection Heq as Hk Hv' _. subst. split; [reflexivity|exact Hv].
+  - exfalso. cbn [app] in Heq. injection Heq as _ Heq. destruct l1; discriminate Heq.
+Qed.
+
+(* selecting the entries whose key satisfies a test commutes with permutation *)
+Definition kfilter (P : bytes -> bool) (l : list (bytes * dg)) : list (bytes * dg) := filter (fun kv => P (fst kv)) l.
+
+Lemma pleq_kfilter : forall P l l', pleq l l' -> pleq (kfilter P l) (kfilter P l').
+Proof.
+  intros P l l' Hp. induction Hp as [|k v v' l l1 l2 Hv _ IH]; [constructor|].
+  unfold kfilter in *. rewrite filter_app in *. cbn [filter fst]. destruct (P k).
+  - apply PleqCons; assumption.
+  - exact IH.
+Qed.
+
+Definition is_fam (a : kfam) (k : bytes) : bool := if kfam_eq_dec (fam k) a then true else false.
+
+Lemma kfilter_all : forall a l, all_fam a l -> kfilter (is_fam a) l = l.
+Proof.
+  intros a l Hl. induction Hl as [|kv l Hk _ IH]; [reflexivity|].
+  unfold kfilter in *. cbn [filter]. unfold is_fam at 1. destruct (kfam_eq_dec (fam (fst kv)) a); [|contradiction].
+  f_equal. exact IH.
+Qed.
+Lemma kfilter_none : forall a l, no_fam a l -> kfilter (is_fam a) l = [].
+Proof.
+  intros a l Hl. induction Hl as [|kv l Hk _ IH]; [reflexivity|].
+  unfold kfilter in *. cbn [filter]. unfold is_fam at 1. destruct (kfam_eq_dec (fam (fst kv)) a); [contradiction|].
+  exact IH.
+Qed.
+Lemma kfilter_neg_all : forall a l, all_fam a l -> kfilter (fun k => negb (is_fam a k)) l = [].
+Proof.
+  intros a l Hl. induction Hl as [|kv l Hk _ IH]; [reflexivity|].
+  unfold kfilter in *. cbn [filter]. unfold is_fam at 1. destruct (kfam_eq_dec (fam (fst kv)) a); [|contradiction].
+  exact IH.
+Qed.
+Lemma kfilter_neg_none : forall a l, no_fam a l -> kfilter (fun k => negb (is_fam a k)) l = l.
+Proof.
+  intros a l Hl. induction Hl as [|kv l Hk _ IH]; [reflexivity|].
+  unfold kfilter in *. cbn [filter]. unfold is_fam at 1. destruct (kfam_eq_dec (fam (fst kv)) a); [contradiction|].
+  cbn [negb]. f_equal. exact IH.
+Qed.
+
+(* the permuted counterpart of app_fam_split *)
+Lemma pleq_fam_split : forall a l1 l2 r1 r2,
+  all_fam a l1 -> all_fam a l2 -> no_fam a r1 -> no_fam a r2 ->
+  pleq (l1 ++ r1) (l2 ++ r2) -> pleq l1 l2 /\ pleq r1 r2.
+Proof.
+  intros a l1 l2 r1 r2 H1 H2 N1 N2 Hp. split.
+  - apply (pleq_kfilter (is_fam a)) in Hp. unfold kfilter in Hp. rewrite !filter_app in Hp.
+    fold (kfilter (is_fam a) l1) (kfilter (is_fam a) l2) (kfilter (is_fam a) r1) (kfilter (is_fam a) r2) in Hp.
+    rewrite (kfilter_all a l1 H1), (kfilter_all a l2 H2), (kfilter_none a r1 N1), (kfilter_none a r2 N2), !app_nil_r in Hp.
+    exact Hp.
+  - apply (pleq_kfilter (fun k => negb (is_fam a k))) in Hp. unfold kfilter in Hp. rewrite !filter_app in Hp.
+    fold (kfilter (fun k => negb (is_fam a k)) l1) (kfilter (fun k => negb (is_fam a k)) l2)
+         (kfilter (fun k => negb (is_fam a k)) r1) (kfilter (fun k => negb (is_fam a k)) r2) in Hp.
+    rewrite (kfilter_neg_all a l1 H1), (kfilter_neg_all a l2 H2), (kfilter_neg_none a r1 N1),
+      (kfilter_neg_none a r2 N2) in Hp.
+    exact Hp.
+Qed.
+
+(* entries with leaf values: the underlying named lists are permutations of each other *)
+Lemma pleq_map_perm : forall (A : Type) (f : A -> bytes * dg),
+  (forall x y, fst (f x) = fst (f y) -> peq (snd (f x)) (snd (f y)) -> x = y) ->
+  forall l l2, pleq (map f l) (map f l2) -> Permutation l l2.
+Proof.
+  intros A f Hf. induction l as [|x l IH]; intros l2 Hp.
+  - apply pleq_nil_l in Hp. destruct l2; [constructor|discriminate Hp].
+  - cbn [map] in Hp. inversion Hp as [|k v v' l0 l1 l1' Hv Hl Hk Heq]. subst l0.
+    symmetry in Heq. apply map_eq_app in Heq. destruct Heq as (la & lb' & Hl2 & Hla & Hlb).
+    apply map_eq_cons in Hlb. destruct Hlb as (y & lb & Hlb' & Hy & Hlb). subst l2 lb' l1 l1'.
+    assert (Hxy : x = y).
+    { apply Hf; rewrite Hy, <- Hk; [reflexivity|exact Hv]. }
+    subst y. apply Permutation_cons_app. apply IH. rewrite map_app. exact Hl.
+Qed.
+
+(* entries with arbitrary values under an injective key *)
+Lemma pleq_map_key : forall (g : bytes -> bytes), (forall a b, g a = g b -> a = b) ->
+  forall l l2, pleq (map (fun ps : bytes * dg => (g (fst ps), snd ps)) l) (map (fun ps : bytes * dg => (g (fst ps), snd ps)) l2) ->
+  pleq l l2.
+Proof.
+  intros g Hg. induction l as [|[p s] l IH]; intros l2 Hp.
+  - apply pleq_nil_l in Hp. destruct l2; [constructor|discriminate Hp].
+  - cbn [map fst snd] in Hp. inversion Hp as [|k v v' l0 l1 l1' Hv Hl Hk Heq]. subst.
+    symmetry in Heq. apply map_eq_app in Heq. destruct Heq as (la & lb' & Hl2 & Hla & Hlb).
+    apply map_eq_cons in Hlb. destruct Hlb as ([p2 s2] & lb & Hlb' & Hy & Hlb). subst l2 lb' l1 l1'.
+    cbn [fst snd] in Hy. apply cons_pair_inj_pair in Hy. destruct Hy as [Hp2 Hs2]. apply Hg in Hp2. subst p2 s2.
+    apply PleqCons; [exact Hv|]. apply IH. rewrite map_app. exact Hl.
+Qed.
+
+(* the interactions: the index is part of the key, so they cannot be permuted *)
+Lemma sigl_key_pos : forall vs i l1 j v l2, sigl_from i vs = l1 ++ (k_fun_dep j, v) :: l2 -> j = i + List.length l1.
+Proof.
+  induction vs as [|s r IH]; intros i l1 j v l2 Heq.
+  - exfalso. cbn [sigl_from] in Heq. destruct l1; discriminate Heq.
+  - cbn [sigl_from] in Heq. destruct l1 as [|x l1].
+    + cbn [app] in Heq. apply cons_pair_inj in Heq. destruct Heq as (Hk & _ & _). apply k_fun_dep_inj in Hk.
+      cbn [List.length]. lia.
+    + cbn [app] in Heq. assert (Hr : sigl_from (S i) r = l1 ++ (k_fun_dep j, v) :: l2).
+      { destruct x as [kx vx]. apply cons_pair_inj in Heq. exact (proj2 (proj2 Heq)). }
+      apply IH in Hr. cbn [List.length]. lia.
+Qed.
+
+Lemma pleq_sigl : forall vs vs2 i, pleq (sigl_from i vs) (sigl_from i vs2) -> Forall2 peq vs vs2.
+Proof.
+  induction vs as [|s r IH]; intros vs2 i Hp.
+  - apply pleq_nil_l in Hp. destruct vs2; [constructor|discriminate Hp].
+  - cbn [sigl_from] in Hp. inversion Hp as [|k v v' l0 l1 l2 Hv Hl Hk Heq]. subst.
+    symmetry in Heq. pose proof (sigl_key_pos vs2 i l1 i v' l2 Heq) as Hpos.
+    assert (l1 = []) by (destruct l1; [reflexivity|cbn [List.length] in Hpos; lia]). subst l1.
+    destruct vs2 as [|s2 r2]; [discriminate Heq|].
+    cbn [sigl_from app] in Heq. apply cons_pair_inj in Heq. destruct Heq as (_ & Hs2 & Hr2). subst s2 l2.
+    constructor; [exact Hv|]. cbn [app] in Hl. exact (IH r2 (S i) Hl).
+Qed.
+
+(* contents up to the order of the named entries (arguments, loads, external names, variables); the order of the
+   interactions is kept *)
+Inductive ceq : content -> content -> Prop :=
+| CeqNode : forall lh a a2 loads loads2 ch ch2 exts exts2 vars vars2,
+    aeq a a2 -> pleq loads loads2 -> Forall2 ceq ch ch2 -> Permutation exts exts2 -> Permutation vars vars2 ->
+    ceq (Content lh a loads ch exts vars) (Content lh a2 loads2 ch2 exts2 vars2)
+with aeq : arg_content -> arg_content -> Prop :=
+| AeqKnown : forall l l2, Permutation l l2 -> aeq (ArgsKnown l) (ArgsKnown l2)
+| AeqCtx : forall c c2, ceq c c2 -> aeq (ArgsFromContext c) (ArgsFromContext c2).
+
+Lemma peq_DBytes_inv : forall a t, peq (DBytes a) t -> t = DBytes a.
+Proof. intros a t Hp. inversion Hp. reflexivity. Qed.
+Lemma peq_DHash_inv : forall a t, peq (DHash a) t -> t = DHash a.
+Proof. intros a t Hp. inversion Hp. reflexivity. Qed.
+Lemma peq_DComb_inv : forall l l2, peq (DComb l) (DComb l2) -> pleq l l2.
+Proof. intros l l2 Hp. inversion Hp. assumption. Qed.
+
+Lemma pleq_known : forall l l2, pleq (enc_known l) (enc_known l2) -> Permutation l l2.
+Proof.
+  apply pleq_map_perm. intros [n h] [n2 h2] Hk Hv. cbn [fst snd] in *.
+  apply k_arg_inj in Hk. apply peq_DBytes_inv in Hv. apply DBytes_inj in Hv. subst. reflexivity.
+Qed.
+Lemma pleq_vars : forall l l2, pleq (enc_vars l) (enc_vars l2) -> Permutation l l2.
+Proof.
+  apply pleq_map_perm. intros [n h] [n2 h2] Hk Hv. cbn [fst snd] in *.
+  apply k_ext_var_inj in Hk. apply peq_DBytes_inv in Hv. apply DBytes_inj in Hv. subst. reflexivity.
+Qed.
+Lemma pleq_exts : forall l l2, pleq (sextpairs l) (sextpairs l2) -> Permutation l l2.
+Proof.
+  apply pleq_map_perm. intros [n h] [n2 h2] Hk Hv. cbn [fst snd] in *.
+  apply k_ext_dep_inj in Hk. apply peq_DHash_inv in Hv. apply DHash_inj in Hv.
+  apply app_inv_head in Hv. apply app_inv_tail in Hv. subst. reflexivity.
+Qed.
+Lemma pleq_deps : forall l l2, pleq (sdep_pairs l) (sdep_pairs l2) -> pleq l l2.
+Proof. apply pleq_map_key. exact k_dep_inj. Qed.
+
+Lemma pleq_opt_entry : forall k l l2, pleq (opt_entry k l) (opt_entry k l2) -> pleq l l2.
+Proof.
+  intros k [|x l] [|y l2] Hp; cbn [opt_entry] in Hp.
+  - constructor.
+  - apply pleq_nil_l in Hp. discriminate Hp.
+  - apply pleq_nil_r in Hp. discriminate Hp.
+  - apply pleq_single in Hp. apply peq_DComb_inv. exact (proj2 Hp).
+Qed.
+
+Lemma peq_enc_input : forall ap ep vp ap2 ep2 vp2,
+  peq (enc_input ap ep vp) (enc_input ap2 ep2 vp2) -> pleq (ap ++ ep ++ vp) (ap2 ++ ep2 ++ vp2).
+Proof.
+  intros ap ep vp ap2 ep2 vp2. unfold enc_input.
+  destruct (ap ++ ep ++ vp) as [|x l]; destruct (ap2 ++ ep2 ++ vp2) as [|y l2]; intros Hp.
+  - constructor.
+  - inversion Hp.
+  - inversion Hp.
+  - apply peq_DComb_inv. exact Hp.
+Qed.
+
+Lemma pleq_input_parts : forall a a2 exts exts2 vars vars2,
+  pleq (enc_args a ++ sextpairs exts ++ enc_vars vars) (enc_args a2 ++ sextpairs exts2 ++ enc_vars vars2) ->
+  pleq (enc_args a) (enc_args a2) /\ Permutation exts exts2 /\ Permutation vars vars2.
+Proof.
+  intros a a2 exts exts2 vars vars2 Hp.
+  apply (pleq_fam_split FArg) in Hp; [|apply all_fam_args|apply all_fam_args|solve_no_fam|solve_no_fam].
+  destruct Hp as [Ha Hp]. split; [exact Ha|].
+  apply (pleq_fam_split FExtDep) in Hp; [|apply all_fam_exts|apply all_fam_exts|solve_no_fam|solve_no_fam].
+  destruct Hp as [He Hv]. split; [apply pleq_exts; exact He|apply pleq_vars; exact Hv].
+Qed.
+
+Lemma Forall2_children : forall (ch ch2 : list content),
+  Forall (fun c => forall c2, peq (enc c) (enc c2) -> ceq c c2) ch ->
+  Forall2 peq (map enc ch) (map enc ch2) -> Forall2 ceq ch ch2.
+Proof.
+  intros ch ch2 HF. revert ch2. induction HF as [|c ch Hc _ IH]; intros [|c2 ch2] H2; cbn [map] in H2.
+  - constructor.
+  - inversion H2.
+  - inversion H2.
+  - inversion H2 as [|? ? ? ? Hh Ht]. subst. constructor; [apply Hc; exact Hh|apply IH; exact Ht].
+Qed.
+
+Definition pinj_content (c : content) : Prop :=
+  (forall c2, peq (enc c) (enc c2) -> ceq c c2) /\ (forall c2, peq (enc_site c) (enc_site c2) -> ceq c c2).
+Definition pinj_args (a : arg_content) : Prop := forall a2, pleq (enc_args a) (enc_args a2) -> aeq a a2.
+
+Lemma all_fam_body : forall v, all_fam FBody [(k_body_sig, v)].
+Proof. intros v. constructor; [exact fam_body_sig|constructor]. Qed.
+Lemma all_fam_input : forall v, all_fam FInput [(k_fun_input, v)].
+Proof. intros v. constructor; [exact fam_fun_input|constructor]. Qed.
+
+Ltac solve_no_fam2 :=
+  repeat first
+    [ apply no_fam_nil
+    | apply no_fam_app
+    | (eapply all_fam_no; [|first [apply all_fam_args | apply all_fam_known | apply all_fam_deps | apply all_fam_sigl
+                                  | apply all_fam_exts | apply all_fam_vars | apply all_fam_body | apply all_fam_input
+                                  | apply all_fam_opt; first [exact fam_fun_inter | exact fam_fun_deps]]]; fam_ne) ].
+
+Lemma enc_injective_perm_all : forall c, pinj_content c.
+Proof.
+  apply (content_ind' pinj_content pinj_args).
+  - intros lh a loads ch exts vars Ha Hch.
+    assert (Hch1 : Forall (fun c => forall c2, peq (enc c) (enc c2) -> ceq c c2) ch).
+    { eapply Forall_impl; [|exact Hch]. intros c Hc. exact (proj1 Hc). }
+    split.
+    + intros [lh2 a2 loads2 ch2 exts2 vars2] Hp. rewrite !enc_eq in Hp. apply peq_DComb_inv in Hp.
+      apply (pleq_fam_split FBody) in Hp; [|apply all_fam_body|apply all_fam_body|solve_no_fam2|solve_no_fam2].
+      destruct Hp as [Hb Hp]. apply pleq_single in Hb. destruct Hb as [_ Hb].
+      apply peq_DBytes_inv in Hb. apply DBytes_inj in Hb. subst lh2.
+      apply (pleq_fam_split FArg) in Hp; [|apply all_fam_args|apply all_fam_args|solve_no_fam|solve_no_fam].
+      destruct Hp as [Hargs Hp]. apply Ha in Hargs.
+      apply (pleq_fam_split FDep) in Hp; [|apply all_fam_deps|apply all_fam_deps|solve_no_fam|solve_no_fam].
+      destruct Hp as [Hl Hp]. apply pleq_deps in Hl.
+      apply (pleq_fam_split FFunDep) in Hp; [|apply all_fam_sigl|apply all_fam_sigl|solve_no_fam|solve_no_fam].
+      destruct Hp as [Hc Hp]. apply pleq_sigl in Hc. apply (Forall2_children ch ch2 Hch1) in Hc.
+      apply (pleq_fam_split FExtDep) in Hp; [|apply all_fam_exts|apply all_fam_exts|solve_no_fam|solve_no_fam].
+      destruct Hp as [He Hv]. apply pleq_exts in He. apply pleq_vars in Hv.
+      constructor; assumption.
+    + intros [lh2 a2 loads2 ch2 exts2 vars2] Hp. rewrite !enc_site_eq in Hp. apply peq_DComb_inv in Hp.
+      change ([(k_body_sig, DBytes lh); (k_fun_input, enc_input (enc_args a) (sextpairs exts) (enc_vars vars))])
+        with ([(k_body_sig, DBytes lh)] ++ [(k_fun_input, enc_input (enc_args a) (sextpairs exts) (enc_vars vars))]) in Hp.
+      change ([(k_body_sig, DBytes lh2); (k_fun_input, enc_input (enc_args a2) (sextpairs exts2) (enc_vars vars2))])
+        with ([(k_body_sig, DBytes lh2)] ++ [(k_fun_input, enc_input (enc_args a2) (sextpairs exts2) (enc_vars vars2))]) in Hp.
+      rewrite <- !app_assoc in Hp.
+      apply (pleq_fam_split FBody) in Hp; [|apply all_fam_body|apply all_fam_body|solve_no_fam2|solve_no_fam2].
+      destruct Hp as [Hb Hp]. apply pleq_single in Hb. destruct Hb as [_ Hb].
+      apply peq_DBytes_inv in Hb. apply DBytes_inj in Hb. subst lh2.
+      apply (pleq_fam_split FInput) in Hp; [|apply all_fam_input|apply all_fam_input|solve_no_fam2|solve_no_fam2].
+      destruct Hp as [Hin Hp]. apply pleq_single in Hin. destruct Hin as [_ Hin].
+      apply peq_enc_input in Hin. apply pleq_input_parts in Hin. destruct Hin as (Hargs & He & Hv).
+      apply Ha in Hargs.
+      apply (pleq_fam_split FInter) in Hp;
+        [|apply all_fam_opt; exact fam_fun_inter|apply all_fam_opt; exact fam_fun_inter|solve_no_fam|solve_no_fam].
+      destruct Hp as [Hc Hl].
+      apply pleq_opt_entry in Hc. apply pleq_sigl in Hc. apply (Forall2_children ch ch2 Hch1) in Hc.
+      apply pleq_opt_entry in Hl. apply pleq_deps in Hl.
+      constructor; assumption.
+  - intros l [l2|c2] Hp.
+    + rewrite !enc_args_known in Hp. constructor. apply pleq_known. exact Hp.
+    + exfalso. rewrite enc_args_known, enc_args_ctx in Hp. destruct c2 as [lh2 a2 loads2 ch2 exts2 vars2].
+      rewrite enc_site_eq in Hp. pose proof (pleq_length _ _ Hp) as Hlen.
+      destruct l as [|[n h] [|x l]]; try discriminate Hlen.
+      cbn [enc_known map fst snd] in Hp. apply pleq_single in Hp. destruct Hp as [_ Hp]. inversion Hp.
+  - intros c Hc [l2|c2] Hp.
+    + exfalso. rewrite enc_args_known, enc_args_ctx in Hp. destruct c as [lh a loads ch exts vars].
+      rewrite enc_site_eq in Hp. pose proof (pleq_length _ _ Hp) as Hlen.
+      destruct l2 as [|[n h] [|x l2]]; try discriminate Hlen.
+      cbn [enc_known map fst snd] in Hp. apply pleq_single in Hp. destruct Hp as [_ Hp]. inversion Hp.
+    + rewrite !enc_args_ctx in Hp. apply pleq_single in Hp. constructor. apply (proj2 Hc). exact (proj2 Hp).
+Qed.
+
+Theorem enc_injective_perm : forall c c2, peq (enc c) (enc c2) -> ceq c c2.
+Proof. intros c. exact (proj1 (enc_injective_perm_all c)). Qed.
+
+Theorem sig_injective_perm : forall hv hl f A R x R' f2 A2 R2 x2 R2',
+  sana hv hl f (skey A) R = inr (x, R') -> sana hv hl f2 (skey A2) R2 = inr (x2, R2') ->
+  peq (sfi_sig x) (sfi_sig x2) ->
+  exists c c2, content_of hv hl f A R = Some c /\ content_of hv hl f2 A2 R2 = Some c2 /\ ceq c c2.
+Proof.
+  intros hv hl f A R x R' f2 A2 R2 x2 R2' H1 H2 Hsig.
+  destruct (sana_content hv hl f A R x R' H1) as (c & Hc & Hx).
+  destruct (sana_content hv hl f2 A2 R2 x2 R2' H2) as (c2 & Hc2 & Hx2).
+  exists c, c2. unfold content_of. rewrite Hc, Hc2. rewrite Hx, Hx2 in Hsig.
+  split; [reflexivity|]. split; [reflexivity|]. apply enc_injective_perm. exact Hsig.
+Qed.
